@@ -78,4 +78,45 @@ TABLE = {
              "what actually listens / what the client emits first. ~4700 evaluations quick.",
         note="The README is the specification; undocumented schemes are only judged for their natural reading when accepted. Known findings listed.",
         technique="runtime monitoring: black-box transport classification of the real binary + in-process parser oracle against a documented table"),
+    "C02": dict(
+        ready=True, level="exploration",
+        text="Scripted coordinator holds 1-6 other logical connections of one physical session in chosen states (idle, unread data either/both ways "
+             "under the shared 4 MiB, closed on one side only, busy) for as long as needed and issues open/echo/transfer/close on another one, which "
+             "must complete under the stall rule; plus free-running stress with k=2..16 goroutines on tagged connections where every stream is keyed "
+             "by its connection so foreign bytes are attributed; repeated with GOMAXPROCS=2, under -race and with delays at the accept hook.",
+        note="Interleavings are sampled, not enumerated; the evidence lists the (state-set, operation) pairs actually exercised.",
+        technique="runtime monitoring: scripted-interleaving coordinator + keyed-stream isolation oracle on real multiplexed sessions, race detector as stress amplifier"),
+    "C05": dict(
+        ready=True, level="exploration",
+        text="Reference model admit = (insecure or cert chains to configured CA, valid, matches the host written in the URL) and (not requireClientCert or "
+             "client cert signed by the server's CA); UDP: secrets equal. Every cell of {6 server certificates x insecure x 4 client-certificate "
+             "behaviours x require x 6 TLS/StartTLS carriers x host spelling} (thorough: all 1056; quick: ~190 covering every level pairwise) is "
+             "established through the real client and judged by whether a probe byte reaches the recording target; both directions of disagreement are violations.",
+        note="Admission is observed at the target (probe byte) and refusal by a barrier connection through the target's accept queue, not by timers; "
+             "a pending connect on an expected refusal counts as not admitted.",
+        technique="runtime monitoring: reference-model (admission table) oracle over an enumerated configuration matrix of real TLS sessions"),
+    "C12": dict(
+        ready=True, level="exploration",
+        text="Grammar-generated single-question DNS messages (every command letter, short/foreign/bare-domain names, all field extremes, every query type "
+             "and class) are handed to the real server's onMessage from foreign and session-owning addresses while a victim session's in-package state "
+             "snapshot must stay identical and keep moving keyed data; per message: no panic, allocation <= 8 MiB, returns; memory bombs run in ulimit'd "
+             "children. Hostile answer sections are fed to the real client decode path (no panic). ~290k messages quick, ~4M thorough + race/checkptr pass.",
+        note="Messages miekg's server rejects before the handler (Qdcount != 1, compression loops) are counted, not judged. Production has no recover, so "
+             "any panic in the handler path is a crash.",
+        technique="runtime monitoring: grammar-based hostile-input generation with panic/allocation/state-snapshot monitors on the real handlers"),
+    "C15": dict(
+        ready=True, level="fault_enumeration",
+        text="For each server endpoint kind (tcp, unix, TLS, StartTLS, ws, wss, KCP, DNS) 1-8 scripted peers stall for ever at one of 11 points "
+             "(after connect, inside the request line, between the two requests, inside a TLS hello, after 101, after upgrade silent/garbage/half frame ...) "
+             "and then real clients must handshake and move keyed data while the stalled peers are still connected; 71 scenarios quick, 1056 thorough.",
+        note="Stalled peers never move, so the verdict cannot depend on timing; completion is judged by the stall rule.",
+        technique="runtime monitoring: fault enumeration of stall points with scripted peers against real servers, completion oracle on real clients"),
+    "C17": dict(
+        ready=True, level="exploration",
+        text="On every carrier, either end writes a keyed payload of 0 B..3 MiB and closes (full close right after the last Write, or half-close and read "
+             "to the end) with 0 or 3 other busy logical connections and with the opposite direction idle or busy; the other end must read exactly the "
+             "payload and then end-of-stream and no side may be left with a connection that never terminates; hook delays widen the write/close race; "
+             "repeated under -race. ~880 closes per quick run.",
+        note="'Bounded time' is the stall rule. Data written by the end that is being closed upon (reverse direction) is not judged.",
+        technique="runtime monitoring: keyed-stream + end-of-stream oracle on real sessions with injected delays at the close hooks"),
 }
